@@ -59,14 +59,17 @@ class VRef:
         self.p = basis.degree
         self.dvmin = float(np.min(np.diff(pts)))
 
-    def step(self, f, shift, r, c, edge):
-        """-> (new values, mask of judged nodes, n feet outside)"""
+    def step(self, f, shift, r, c, edge, exact=False):
+        """-> (new values, mask of judged nodes, n feet outside); exact: all numbers are exactly representable, so a foot
+        that EQUALS an end point is inside the closed domain and is judged"""
         feet = self.pts - shift
         vD = self.vMax - self.vMin
         inside = (feet >= self.vMin) & (feet <= self.vMax)
         judged = np.ones(len(feet), bool)
         if shift != 0.0:
             near = (np.abs(feet - self.vMin) < 1e-9 * vD) | (np.abs(feet - self.vMax) < 1e-9 * vD)
+            if exact:
+                near &= (feet != self.vMin) & (feet != self.vMax)
             judged &= ~near
         new = np.empty(len(feet))
         alt = np.full(len(feet), np.nan)
@@ -101,30 +104,43 @@ def _step_case(case, spl, adv):
     rs = np.random.RandomState(case["seed"] % (1 << 31))
     deg, nv, edge = case["deg"], case["nv"], case["edge"]
     vMax = rng.uniform(2, 8)
-    c = pg.make_constants(rMin=0.3, rMax=rng.uniform(4, 12), vMax=vMax, vMin=-vMax, npts=[6, 6, 8, nv], splineDegrees=[3, 3, 3, deg])
+    vMin = -vMax
+    dom = case["seed"] % 4
+    if dom == 1:
+        vMin = -vMax * rng.choice([0.35, 0.6, 1.7])          # asymmetric velocity domain
+    elif dom == 2:
+        vMin = vMax * 0.25                                   # entirely positive velocities
+    elif dom == 3:
+        vMax, vMin = float(rng.choice([3, 4, 5])), -float(rng.choice([3, 4, 5, 8]))      # exactly representable end points
+    c = pg.make_constants(rMin=0.3, rMax=rng.uniform(4, 12), vMax=vMax, vMin=vMin, npts=[6, 6, 8, nv], splineDegrees=[3, 3, 3, deg])
     eta, bs, _ = pg.make_space(spl, c.npts, c.splineDegrees, pg.std_domain(c))
     vref = VRef(bs[3], eta[3])
     if vref.ref.kappa > 1e8:
         return result(SKIP, what="ill conditioned v space")
     op = adv.VParallelAdvection(eta, bs[3], c, edge=edge)
     path = "fast" if bs[3].cubic_uniform else "general-p%d" % deg
-    dv = (2 * vMax) / (nv - 1)
-    D = 2 * vMax
+    dv = (vMax - vMin) / (nv - 1)
+    D = vMax - vMin
     shifts = [("zero", 0.0), ("tiny", 1e-13 * dv), ("tiny", -3e-10 * dv), ("sub-cell", rng.uniform(0.05, 0.95) * dv), ("sub-cell", -rng.uniform(0.05, 0.95) * dv),
               ("cells", rng.uniform(1.5, 6) * dv), ("cells", -rng.uniform(1.5, 6) * dv), ("domain+eps", D * (1 + 1e-6)), ("domain+eps", -D * (1 + 1e-6)),
               ("3-domains", 3 * D + rng.uniform(0, dv)), ("3-domains", -3 * D - rng.uniform(0, dv)), ("exact-domain", D), ("exact-cell", 2 * dv)]
+    if dom == 3 and float(eta[3][0]) == vMin and float(eta[3][-1]) == vMax:
+        shifts += [("exact-domain-representable", D), ("exact-domain-representable", -D)]
     cls, ev = set(), {"nodes_compared": 0, "outside_feet": 0, "excluded_near_boundary": 0}
     for sname, shift in shifts:
         r = rng.choice(list(eta[0]))
         dt = rng.choice([1.0, 0.5, -2.0, 7.0])
+        exact = sname == "exact-domain-representable"
+        if exact:
+            dt = rng.choice([1.0, 0.5, -2.0, 4.0])
         cc = shift / dt
         shift_eff = cc * dt
         f0 = rs.standard_normal(nv) * rng.choice([1.0, 1e-3, 50.0])
         got = f0.copy()
         op.step(got, dt, cc, r)
-        ref, judged, nout, alt = vref.step(f0, shift_eff, r, c, edge)
+        ref, judged, nout, alt = vref.step(f0, shift_eff, r, c, edge, exact=exact and shift_eff == shift)
         fmax = float(np.abs(f0).max())
-        tol = C * rm.EPS * vref.ref.kappa * fmax * (1 + (vMax + abs(shift_eff)) * 2 * deg * deg / vref.dvmin) + 1e-300
+        tol = C * rm.EPS * vref.ref.kappa * fmax * (1 + (max(abs(vMax), abs(vMin)) + abs(shift_eff)) * 2 * deg * deg / vref.dvmin) + 1e-300
         if edge == "fEq":
             tol += C * rm.EPS * 10.0
         ev["nodes_compared"] += int(judged.sum())
